@@ -85,6 +85,12 @@ SCENARIOS = {
     "arm ending in return does not reach the join": ({"c": ([], ["t", "e"]), "t": ([("store", "x")], ["j"]), "e": ([("int",), ("return_",)], ["j"]), "j": ([("load", "x")], [])}, "c"),
     "two variables, one uninitialised on one path": ({"c": ([("store", "y")], ["t", "e"]), "t": ([("store", "x")], ["j"]), "e": ([], ["j"]), "j": ([("load", "y"), ("load", "x")], [])}, "c"),
     "join reached first with the larger set, then with the smaller": ({"c": ([], ["t", "e"]), "t": ([("store", "x"), ("store", "y")], ["j"]), "e": ([("store", "y")], ["j"]), "j": ([("load", "y")], ["k"]), "k": ([("load", "x")], [])}, "c"),
+    "arms store different variables, join loads the first arm's": ({"c": ([], ["t", "e"]), "t": ([("store", "x")], ["j"]), "e": ([("store", "y")], ["j"]), "j": ([("load", "x")], [])}, "c"),
+    "arms store different variables, join loads the second arm's": ({"c": ([], ["t", "e"]), "t": ([("store", "x")], ["j"]), "e": ([("store", "y")], ["j"]), "j": ([("load", "y")], [])}, "c"),
+    "arms store different variables, join loads both": ({"c": ([], ["t", "e"]), "t": ([("store", "x")], ["j"]), "e": ([("store", "y")], ["j"]), "j": ([("load", "x"), ("load", "y")], [])}, "c"),
+    "three Cond arms each storing its own variable": ({"c1": ([], ["a1", "c2"]), "a1": ([("store", "x")], ["j"]), "c2": ([], ["a2", "a3"]), "a2": ([("store", "y")], ["j"]), "a3": ([("store", "z")], ["j"]), "j": ([("load", "z")], ["k"]), "k": ([("load", "x")], [])}, "c1"),
+    "same number of stores on both arms, different sets, two joins": ({"c": ([("store", "w")], ["t", "e"]), "t": ([("store", "x"), ("store", "y")], ["j"]), "e": ([("store", "y"), ("store", "z")], ["j"]), "j": ([("load", "y")], ["k"]), "k": ([("load", "z"), ("load", "x")], [])}, "c"),
+    "loop re-entered with a different set of the same size": ({"p": ([], ["t", "e"]), "t": ([("store", "x")], ["h"]), "e": ([("store", "y")], ["h"]), "h": ([], ["b", "q"]), "b": ([("load", "y")], ["h"]), "q": ([], [])}, "p"),
 }
 
 
@@ -93,13 +99,13 @@ def r17_1_walk(ctx):
     OpS = op_sym(ctx.model)
     scen = dict(SCENARIOS)
     rnd = random.Random(1234 + ctx.seed)
-    n_rand = 40 if ctx.tier == "quick" else 300
+    n_rand = 120 if ctx.tier == "quick" else 1500
     for i in range(n_rand):
         nb = rnd.randint(2, 5)
         names = [f"b{k}" for k in range(nb)]
         spec = {}
         for k, nm in enumerate(names):
-            ops = [rnd.choice([("store", "x"), ("load", "x"), ("store", "y"), ("load", "y"), ("int",), ("err",)] if rnd.random() < 0.95 else [("return_",)]) for _ in range(rnd.randint(0, 2))]
+            ops = [rnd.choice([("store", "x"), ("load", "x"), ("store", "y"), ("load", "y"), ("store", "z"), ("load", "z"), ("int",), ("err",)] if rnd.random() < 0.95 else [("return_",)]) for _ in range(rnd.randint(0, 2))]
             succ = rnd.sample(names, rnd.choice([0, 1, 1, 2, 2]))
             spec[nm] = (ops, succ)
         scen[f"random#{i}"] = (spec, "b0")
@@ -145,6 +151,12 @@ def r17_4_wiring(ctx):
     g, r, l1, l2 = _slot("global", 400, False), _slot("reserved-local", 9, True), _slot("local-main", 401, False), _slot("local-sub", 402, False)
     sub = Sym("sub")
     prog, _ = _program(OpS, B, {None: [g, r, l1], sub: [g, l2]})
+    # the index of a routine-local variable is taken (x.index(), a by-reference argument): it stays routine-local
+    for key, sl in ((None, l1), (sub, l2)):
+        o = mkop(OpS, "int", sl)
+        o.attrs["assigned"] = {}
+        o.methods["assignSlot"] = lambda slot, loc, o=o: o.attrs["assigned"].__setitem__(slot, loc)
+        prog[key].attrs["ops"].append(o)
     captured = {}
     for key, blk in prog.items():
         blk.methods["validateSlots"] = (lambda key: lambda slotsInUse=None, **k: captured.__setitem__(key, set(slotsInUse) if slotsInUse is not None else None) or [])(key)
@@ -158,6 +170,19 @@ def r17_4_wiring(ctx):
     ctx.check(set(captured) == {None, sub}, "R17.4", "assign:every-routine-checked", f"validateSlots was run for {sorted(map(repr, captured))}; every routine must be checked", f.where, fact={})
     for key, s in captured.items():
         ctx.check(s == {g}, "R17.4", f"assign:initial-set[{key!r}]", f"routine {key!r} is checked with {sorted(x.name for x in (s or []))} assumed initialised; exactly the slots shared between routines may be assumed (a routine-local slot with a requested id is still routine-local)", f.where, fact={"assumed": sorted(x.name for x in (s or []))})
+    # whatever else _compile_impl hands to the allocator must not widen the assumed-initialised set
+    ci_ = ctx.model.find_func("Compilation._compile_impl", "pyteal.compiler.compiler")
+    acall = q.one(q.calls_named(ci_.node, "assignScratchSlotsToSubroutines", into_nested=False), "_compile_impl: assignScratchSlotsToSubroutines")
+    params = f.params()
+    extra_params = [params[i] for i in range(1, len(acall.args)) if i < len(params)] + [k.arg for k in acall.keywords if k.arg and k.arg != params[0]]
+    for pname in extra_params:
+        captured.clear()
+        try:
+            run_function(f.node, {"subroutineBlocks": prog, pname: {l1, l2, r}}, make_oracle(OpS, B, extra), f.fq, resolver=lambda nm: css.node if nm == "collectScratchSlots" else None)
+        except (Raised, AnalysisError):
+            continue  # the parameter is not a set of slots
+        widened = sorted({x.name for s_ in captured.values() for x in (s_ or set())} - {g.name})
+        ctx.check(not widened, "R17.4", f"assign:argument `{pname}` from _compile_impl", f"_compile_impl passes `{pname}` and slots given there ({widened}) are assumed initialised in every routine: routine-local variables named in it escape the check", f"{ci_.module.rel}:{acall.lineno}", fact={})
     # order: check precedes numbering; error chained
     vcall = q.one(q.calls_named(f.node, "validateSlots", into_nested=False), "validateSlots call")
     numbering = [n for n in walk_local(f.node) if isinstance(n, ast.Assign) and u(n.targets[0]).startswith("slotAssignments[")]
